@@ -73,6 +73,33 @@ def search_loader(depth):
     return wit, cases
 
 
+def search_restore():
+    """a fresh loader restored from the exported index must not reuse a bundle id that is still in use: save a; export; save a; save b; export; export_indexing;
+    RESTORE in a fresh loader; save c; export; read everything"""
+    wit, cases = [], 0
+    for icap, bcap in ((1, 1), (2, 2)):
+        cases += 1
+        d = tempfile.mkdtemp(prefix='c15restore')
+        try:
+            mk = lambda: L(None, ['unit_id', 'v'], os.path.join(d, 'x'), icap, bcap)
+            l1 = mk()
+            l1.save(1, [10]); l1.export(); l1.save(1, [11]); l1.save(2, [20]); l1.export(); l1.export_indexing()
+            l2 = mk()
+            l2.restore_indexing()
+            l2.save(3, [30]); l2.export()
+            got = {k: l2.get_item_by_id(k) for k in (1, 2, 3)}
+            want = {1: [11], 2: [20], 3: [30]}
+            bad = {k: (list(got[k]) if got[k] is not None else None) for k in want if (list(got[k]) if got[k] is not None else None) != want[k]}
+            if bad:
+                wit.append(dict(function='GeneralLoader.restore_indexing', input='save(1,[10]); export; save(1,[11]); save(2,[20]); export; export_indexing; fresh loader: restore_indexing; save(3,[30]); export; get 1,2,3',
+                                observed=f'reads after the restore {bad}, last saved {want}', clauses=['after-restoring', 'index-entries-point-below', 'the-bundle-count']))
+        except Exception as e:
+            wit.append(dict(function='GeneralLoader.restore_indexing', input='restore history', observed=f'exception {e!r}', clauses=['safety']))
+        finally:
+            shutil.rmtree(d, ignore_errors=True)
+    return wit[:1], cases
+
+
 def search_lru():
     wit, cases = [], 0
     for cap in (0, 1, 2):
@@ -124,7 +151,7 @@ def known_f9():
 
 def search(target, models):
     wit, cases = [], 0
-    for fn in (lambda: search_loader(4), search_lru, search_one_to_many):
+    for fn in (lambda: search_loader(4), search_lru, search_one_to_many, search_restore):
         w, c = fn()
         wit += w
         cases += c
